@@ -191,6 +191,18 @@ func runC19cap(c *vkit.Collector, rng *vkit.Rng, budget int) {
 				c.Violate("cap."+name+".valid", "result is not a valid cap", rep(ac))
 			}
 		}
+		// exact cases of Contains: same centre, radius not larger (Add(0, r) = r exactly)
+		if ar >= 0 {
+			if !a.Contains(a) {
+				c.Violate("cap.Contains.reflexive", "a valid non-empty cap does not contain itself", rep(ac))
+			}
+			if ar > 0 && !a.Contains(s2.VerifC19CapRaw(ac, ar/2)) {
+				c.Violate("cap.Contains.concentric", "a cap does not contain the concentric cap of half the squared radius", rep(ac))
+			}
+			if !a.Intersects(a) {
+				c.Violate("cap.Intersects.reflexive", "a valid non-empty cap does not intersect itself", rep(ac))
+			}
+		}
 		probes := append(around(a), around(b)...)
 		tp := rng.Intn(len(probes))
 		uc, ur := s2.VerifC19CapFields(un)
